@@ -1,0 +1,23 @@
+//go:build verif
+
+package internal
+
+import (
+	"sync/atomic"
+	"time"
+)
+
+var verifTimerObserver atomic.Value // func(*EventTimer, time.Duration) bool
+
+// VerifSetTimerObserver installs an observer that sees every EventTimer arming.
+// When the observer returns true the real timer is not armed (virtual time).
+func VerifSetTimerObserver(f func(t *EventTimer, d time.Duration) bool) {
+	verifTimerObserver.Store(f)
+}
+
+func verifTimerReset(t *EventTimer, d time.Duration) bool {
+	if f, ok := verifTimerObserver.Load().(func(*EventTimer, time.Duration) bool); ok && f != nil {
+		return f(t, d)
+	}
+	return false
+}
